@@ -252,4 +252,40 @@ theorem runBatches_spec (cfg : GConfig) (cat : GCatalog) (sel : List Part) (req 
             by obtain ⟨a, c, hb, hmem⟩ := w1.recorded; exact ⟨a, c, hb, hm _ hmem⟩⟩
       · exact Or.inr (w.mono (fun c hc => hc))
 
+/-! ### staging bounds -/
+
+theorem SGroup.add_tid (g : SGroup) (b : SBlock) : (g.add b).tid = g.tid := by
+  unfold SGroup.add
+  simp only
+  split
+  · rfl
+  · split <;> rfl
+
+theorem SGroup.add_valid (g : SGroup) (b : SBlock) (hc : 1 ≤ g.count) (hk : b.known = true) (hle : b.min ≤ b.max) :
+    (g.add b).minTS = (if b.min < g.minTS then b.min else g.minTS) ∧
+    (g.add b).maxTS = (if b.max > g.maxTS then b.max else g.maxTS) ∧
+    (g.add b).valid = g.valid ∧ (g.add b).count = g.count + 1 := by
+  unfold SGroup.add
+  have h1 : (!b.known || decide (b.min > b.max)) = false := by simp [hk]; omega
+  have h2 : ¬ (g.count = 0) := by omega
+  simp [h1, h2]
+
+theorem sgroup_fold_spec : ∀ (bs : List SBlock) (g : SGroup), 1 ≤ g.count →
+    (∀ b ∈ bs, b.known = true ∧ b.min ≤ b.max) →
+    (bs.foldl SGroup.add g).minTS = (bs.map (·.min)).foldl (fun a x => if x < a then x else a) g.minTS ∧
+    (bs.foldl SGroup.add g).maxTS = (bs.map (·.max)).foldl (fun a x => if x > a then x else a) g.maxTS ∧
+    (bs.foldl SGroup.add g).valid = g.valid := by
+  intro bs
+  induction bs with
+  | nil => intro g _ _; exact ⟨rfl, rfl, rfl⟩
+  | cons b rest ih =>
+    intro g hc hv
+    obtain ⟨hk, hle⟩ := hv b (List.mem_cons_self ..)
+    obtain ⟨s1, s2, s3, s4⟩ := SGroup.add_valid g b hc hk hle
+    simp only [List.foldl_cons, List.map_cons]
+    obtain ⟨a1, a2, a3⟩ := ih (g.add b) (by omega) (fun x hx => hv x (List.mem_cons_of_mem _ hx))
+    rw [a1, a2, a3, s1, s2, s3]
+    exact ⟨rfl, rfl, rfl⟩
+
+
 end Banyan.C13
